@@ -2,6 +2,7 @@
 # tools/pymut.sh <mutator.py> <arg> <prop> [check args]: python-scripted mutation on a scratch worktree
 M="$1"; A="$2"; PROP="$3"; shift 3
 S=$(mktemp -d /tmp/hvmut.XXXXXX)
+trap 'git -C /repo worktree remove --force "$S/repo" 2>/dev/null; rm -rf "$S"' EXIT INT TERM
 git -C /repo worktree add --detach "$S/repo" HEAD >/dev/null 2>&1
 python3 "$M" "$S/repo" "$A"
 ( cd "$S/repo" && git diff --stat | tail -1 )
